@@ -39,6 +39,23 @@ def run(ctx):
             summ["stalls"], json.dumps(stalled[0])[:400]))
     sc.report_grouped(ctx, [m for m in mism if m["kind"] == "reply"], signature, describe)
     nself = selftest(ctx, vecs)
+    # requests from the peer whose id collides with a pending request of our own (concurrent with
+    # the C06 hand-off): explored under the scheduler, traces validated against Correlate.tla whose
+    # trace action "replies" requires exactly one reply per get/set given to the handler
+    import corcommon as cc
+    import outcommon as oc
+    files, csumm = cc.explore(ctx, cc.collision_scenarios(), maxpre=1 if quick else 2, maxruns=150 if quick else 2000)
+    ctr, cmeta = oc.merge_traces(ctx, files, "c07-collide.ndjson")
+    crej, cr = cc.validate(ctx, ctr)
+    ctx.log("id-collision scenarios: %d schedules, %d traces validated, %d rejected" % (csumm["evaluations"], csumm["traces"], len(crej)))
+    if crej:
+        trs = verif.split_traces(verif.read_ndjson(ctr))
+        for t, hw in sorted(crej.items())[:10]:
+            ev = [e for e in trs[t] if e["_line"] == hw]
+            ctx.violation("request colliding with a pending id not handled as the property requires: %s rejected at %s" % (
+                json.dumps(cmeta[t])[:300], json.dumps(ev[0] if ev else None)[:200]),
+                {"family": "correlate", "scenario": cmeta[t]["scenario"], "choices": cmeta[t]["choices"], "trace": trs[t], "rejected_line": hw})
+    ctx.notes.append("id-collision scenarios (scheduler + Correlate.tla): %d schedules, %d traces, %d rejected" % (csumm["evaluations"], csumm["traces"], len(crej)))
     ctx.write_evidence("model_checking", {
         "states": mc1.distinct + mc2.distinct, "transitions": mc1.generated + mc2.generated,
         "traces_validated_against_impl": summ["evaluations"], "vectors_emitted_by_tlc": nvec,
